@@ -147,6 +147,11 @@ func EncOf(s string) mail.Encoding {
 		return mail.NoEncoding
 	case "usascii":
 		return mail.EncodingUSASCII
+	case "binary":
+		// a transfer-encoding name outside go-mail's four constants (Encoding is a string type)
+		return mail.Encoding("binary")
+	case "QP-mixed-case":
+		return mail.Encoding("Quoted-Printable")
 	default:
 		return mail.EncodingQP
 	}
@@ -372,6 +377,8 @@ func Build(s Msg, h *Hooks) (*mail.Msg, error) {
 				fo = append(fo, mail.WithFileEncoding(mail.EncodingB64))
 			case "8bit":
 				fo = append(fo, mail.WithFileEncoding(mail.NoEncoding))
+			case "binary", "QP-mixed-case":
+				fo = append(fo, mail.WithFileEncoding(EncOf(f.Enc)))
 			}
 			if f.Desc != "" {
 				fo = append(fo, mail.WithFileDescription(f.Desc))
